@@ -60,6 +60,31 @@ def gen_matcher_case(rng):
     return {"kind": "matcher", "m": j, "names": [n.encode().hex() for n in sorted(names)]}
 
 
+def esc(x):
+    return x.replace(".", "\\.")
+
+
+def gen_nested_case(rng):
+    """all six options cut from one base name at nested positions: the combinations in which one option's text extends,
+    equals or contradicts another's (prefix vs. the literal head of an anchored regex / notRegex, notPrefix vs. prefix, ...)"""
+    base = ".".join(rng.choice(["servers", "tmp", "a", "cpu", "web1", "db", "x_y", "q-1"]) for _ in range(4))
+    cuts = sorted(rng.sample(range(1, len(base)), 3))
+    piece = lambda: base[:rng.choice(cuts + [len(base)])]
+    j = {"prefix": "", "notPrefix": "", "sub": "", "notSub": "", "regex": "", "notRegex": ""}
+    for k in rng.sample(list(j), rng.choice([2, 2, 3, 4])):
+        if k in ("prefix", "notPrefix"):
+            j[k] = piece()
+        elif k in ("sub", "notSub"):
+            a, b = sorted(rng.sample(range(len(base) + 1), 2))
+            j[k] = base[a:b]
+        else:
+            j[k] = "^" + esc(piece()) + rng.choice(["", "", "\\.", ".*", "[a-z]+", "$"])
+    names = {base, base + ".more", "z" + base}
+    for c in cuts:
+        names |= {base[:c], base[:c] + "x", base[:c] + ".", base[:c] + base[c:][::-1]}
+    return {"kind": "matcher", "m": j, "names": [n.encode().hex() for n in sorted(names)]}
+
+
 def gen_site_case(rng):
     c = c01.gen_table(rng, "quick", ll="none")
     c["kind"] = "table"
@@ -95,6 +120,7 @@ def gen(rng, tier):
                       "names": [x.encode().hex() for x in HAND_NAMES]})
         cases.append({"kind": "matcher", "m": {"prefix": "", "notPrefix": "", "sub": "", "notSub": "", "regex": "", "notRegex": src},
                       "names": [x.encode().hex() for x in HAND_NAMES]})
+    cases += [gen_nested_case(rng) for _ in range(n // 4)]
     cases += [gen_matcher_case(rng) for _ in range(n)]
     cases += [gen_site_case(rng) for _ in range(m)]
     return cases
